@@ -423,7 +423,11 @@ func oracle(c *Case) (facts, error) {
 		{
 			heavy := &pb.QueryRequest{}
 			hq := fix.PBQuery(model.Eq(col, val), nil, 0)
-			for i := 0; i < 40000; i++ {
+			nheavy := 40000
+			if per := len(col) + len(val) + 16; nheavy*per > 2<<20 {
+				nheavy = (2 << 20) / per // stay below the transport's 4 MiB message limit
+			}
+			for i := 0; i < nheavy; i++ {
 				heavy.Queries = append(heavy.Queries, hq)
 			}
 			type hres struct {
